@@ -3,6 +3,7 @@ package mon
 import (
 	"fmt"
 	"os"
+	"strconv"
 	"strings"
 	"sync"
 	"sync/atomic"
@@ -20,6 +21,39 @@ type c06Case struct {
 	Input run.TV
 	Mode  int // bit0: shared *Query (concurrent compilation) instead of shared *Code; bit1: one shared input instead of private copies
 	G, R  int
+	Multi bool // every goroutine runs on its own variant of the input (c06Variant) and is compared with that variant's run alone
+}
+
+// c06Spare rebuilds v with spare capacity behind every array (what a decoder or a slice expression leaves behind).
+func c06Spare(v any) any {
+	switch x := v.(type) {
+	case []any:
+		w := make([]any, len(x), len(x)+3)
+		for i, e := range x {
+			w[i] = c06Spare(e)
+		}
+		return w
+	case map[string]any:
+		w := make(map[string]any, len(x))
+		for k, e := range x {
+			w[k] = c06Spare(e)
+		}
+		return w
+	}
+	return v
+}
+
+// c06Variant is input number g of a family that differs in every leaf a program is likely to use as a key into
+// per-Code state (regular expressions and flags, numbers, strings), with the original input under "v".
+func c06Variant(v any, g int) any {
+	words := []any{}
+	for k := 0; k < 24; k++ {
+		words = append(words, "w"+strconv.Itoa(k%8))
+	}
+	return map[string]any{
+		"v": run.DeepCopy(v), "g": g, "p": "^w" + strconv.Itoa(g) + "$", "q": "w[" + strconv.Itoa(g) + strconv.Itoa((g+1)%8) + "]", "f": []string{"", "g", "i", "x", "gi", "n", "s", "l"}[g%8],
+		"s": "w" + strconv.Itoa(g) + " W" + strconv.Itoa(g) + " w" + strconv.Itoa((g+1)%8), "words": words, "a": map[string]any{"b": g}, "c": []any{g, map[string]any{"d": g + 1}},
+	}
 }
 
 func raceLogPath() string {
@@ -89,7 +123,18 @@ var kC06 = run.NewKind("c06.concurrent", func(c *run.Ctx, t c06Case) *run.Fail {
 		return nil
 	}
 	want := traceKey(base)
-	shared := t.Input.V // used only in shared-input mode; never written by the harness
+	wants := make([]string, t.G)
+	if t.Multi {
+		for g := range wants {
+			b := run.RunCode(code, c06Variant(t.Input.V, g), nil, defBudget, 500)
+			if b.End == run.EndBudget {
+				c.Inconclusive("budget")
+				return nil
+			}
+			wants[g] = traceKey(b)
+		}
+	}
+	shared := c06Spare(t.Input.V) // used only in shared-input mode; never written by the harness
 	sharedQuery, sharedInput := t.Mode&1 != 0, t.Mode&2 != 0
 	G, R := t.G, t.R
 	var wg sync.WaitGroup
@@ -112,9 +157,13 @@ var kC06 = run.NewKind("c06.concurrent", func(c *run.Ctx, t c06Case) *run.Fail {
 		go func(g int) {
 			defer runners.Done()
 			var in any
-			if sharedInput {
+			want := want
+			switch {
+			case t.Multi:
+				in, want = c06Variant(t.Input.V, g), wants[g]
+			case sharedInput:
 				in = shared
-			} else {
+			default:
 				in = run.DeepCopy(t.Input.V)
 			}
 			for r := 0; r < R; r++ {
@@ -183,6 +232,15 @@ func raceSummary(rep string) string {
 	return strings.Join(out, "\n")
 }
 
+var c06PerInput = []string{
+	".p as $p | [.words[] | select(test($p))]", ".p as $p | [.words[] | match($p).string]", ".q as $q | [.words[] | select(test($q))] | length", ".p as $p | .s | [scan($p[1:-1])]", ".q as $q | .s | [splits($q)]", ". as $d | .s | gsub($d.q; \"_\")",
+	". as $d | .s | sub($d.q; \"<\\(.)>\")?", ".q as $q | .s | [match($q; \"g\").offset]", ". as $d | .s | [match($d.q; $d.f)?] | length", ". as $d | [.words[] | test($d.p; $d.f)?]", ".q as $q | .s | capture(\"(?<x>\" + $q + \")\")", ". as $d | .s | [test($d.q), test($d.q; \"i\"), test($d.p)]",
+	".p as $p | [.words[] | select(test($p))] | length, (.s | ascii_downcase | [scan(\"w.\")])", ". as $d | .words | map(select(test($d.p))) | unique", ".g as $g | [.words[] | ltrimstr(\"w\") | tonumber | select(. == $g)]", ".s | ascii_upcase | [splits(\" \")]",
+	". as $d | .words | index(\"w\" + ($d.g | tostring))", ".g as $g | [limit($g + 1; .words[])] | length", ".g as $g | label $out | .words[] | if . == \"w\" + ($g | tostring) then ., break $out else empty end", ".c |= map(.)", ".a.b += 1", "[.c[]] | sort_by(tostring)",
+	".g as $g | [range($g + 2)] | .[$g:] | length", ". as $d | $d.words | group_by(. == \"w\" + ($d.g | tostring)) | map(length)", ".g as $g | [.words[] | select(endswith($g | tostring))] | length", ".s | @base64 | @base64d", ".g | tostring | tojson | fromjson | tonumber",
+	". as $d | .s | [match($d.p[1:-1]; \"g\").string] | unique", ". as $d | [$d.words[] | sub($d.p; \"hit\")] | map(select(. == \"hit\")) | length", ".g as $g | first(.words[] | select(. == \"w\" + ($g | tostring)))", ".g as $g | any(.words[]; . == \"w\" + ($g | tostring))", "(.c[0], .a.b) |= . + 1",
+}
+
 var c06Hand = []string{
 	// updates whose right-hand side yields nothing (paths are collected and deleted at the end), flat and nested
 	".[] |= empty", ".c |= (.[] |= empty)?", "(.a, .c) |= empty", "map_values(empty)", "map_values(select(. != 1))?", "(.. | numbers) |= empty", ".c[] |= select(type == \"number\")", "[1,2,3,4,5,6,7,8,9,10] | (.[] | select(. % 2 == 0)) |= empty",
@@ -211,7 +269,14 @@ func init() {
 				map[string]any{"a": []any{3, 1, 2}, "b": "abcabc", "c": []any{"x", "y"}},
 				[]any{1, 2, 3}, "abcabc", nil,
 			}
+			// per-goroutine inputs: state kept by the shared compiled code and keyed by run-time values (patterns, flags)
+			for _, src := range c06PerInput {
+				for mode := 0; mode < 2; mode++ {
+					kC06.Do(c, c06Case{Src: src, Input: run.TV{V: inputs[(len(src)+mode)%3]}, Mode: mode, G: G, R: R, Multi: true})
+				}
+			}
 			for _, src := range c06Hand {
+				kC06.Do(c, c06Case{Src: ".v | " + src, Input: run.TV{V: inputs[len(src)%3]}, Mode: 0, G: G, R: R, Multi: true})
 				for mode := 0; mode < 4; mode++ {
 					kC06.Do(c, c06Case{Src: src, Input: run.TV{V: inputs[(len(src)+mode)%3]}, Mode: mode, G: G, R: R})
 				}
